@@ -11,10 +11,15 @@ from . import devfam as F
 SAFE_FAMS = {"asa": {"F1", "F3", "F4"}, "ios": {"F1", "F3", "F4"}, "linux": {"R1"}}
 
 # family -> generator constants
-ASA_FAMS = {"F1": {"MaxLen": 3}, "F2": {"MaxLen": 2}, "F3": {"MaxLen": 3}, "F4": {"MaxLen": 3},
+ASA_FAMS = {"F9": {"MaxLen": 2}, "F1": {"MaxLen": 3}, "F2": {"MaxLen": 2}, "F3": {"MaxLen": 3}, "F4": {"MaxLen": 3},
             "F7": {"MaxLen": 2}}
 
 PLAN = {
+    "C16": dict(mode="det", tags={"C16"}, spec="DetTrace", level="exploration",
+                quick=[("asa", "F9", 5000), ("asa", "F2", 2000), ("asa", "F7", 1000), ("ios", "F8", 1000),
+                       ("ios", "F3", 1000)],
+                thorough=[("asa", "F9", None), ("asa", "F2", 30000), ("asa", "F7", 10000), ("asa", "F3", 5000),
+                          ("ios", "F8", 20000), ("ios", "F3", 10000), ("ios", "F7", 5000)]),
     "C02": dict(mode="conv", tags={"EQUIV", "FIXPOINT"},
                 quick=[("ios", "F1", 5000), ("ios", "F8", 5000), ("ios", "F3", 3000),
                        ("ios", "F4", 2500), ("ios", "F7", 2000)],
@@ -99,19 +104,23 @@ def sample_of(dialect, case, result):
 
 def run(prop, tier, replay_file=None):
     P = PLAN[prop]
-    rep = C.Report(prop, tier, "model_checking")
+    rep = C.Report(prop, tier, P.get("level", "model_checking"))
     bins = C.build()
     if replay_file:
         obj = json.load(open(replay_file))
         by = {obj["dialect"]: [obj["case"]]}
     else:
         by = collect_cases(P[tier], rep)
-    ntraces = nevents = ncases = nrej = nchanged = 0
+    ntraces = nevents = ncases = nrej = nchanged = ntie = 0
+    nfail = {}
+    allres = []
     samples = []
     for dialect, cases in by.items():
         byid = {c["id"]: c for c in cases}
         res = F.run_cases(bins, dialect, cases, P["mode"])
         ncases += len(cases)
+        allres += res
+        ntie += sum(1 for c in cases if c.get("tie"))
         rej = [r for r in res if r["rejected"]]
         nrej += len(rej)
         crashed = [r for r in rej if r["rejected"]["rc"] not in (0, 1)]
@@ -119,7 +128,7 @@ def run(prop, tier, replay_file=None):
             rep.notes.append("planner crashed (exit %s) on %d generated inputs, e.g. %s" % (
                 crashed[0]["rejected"]["rc"], len(crashed), crashed[0]["rejected"]["stderr"][-300:]))
         nchanged += sum(1 for r in res if r["nev"])
-        verr, nt, ne, tl = F.validate(dialect, res, tag=prop)
+        verr, nt, ne, tl = F.validate(dialect, res, tag=prop, spec=P.get("spec"))
         ntraces += nt
         nevents += ne
         for t in tl:
@@ -144,17 +153,22 @@ def run(prop, tier, replay_file=None):
                 rep.known[kf] = rep.known.get(kf, 0) + 1
                 continue
             case = byid[cid]
-            if not replay_file:
+            nfail[tag] = nfail.get(tag, 0) + 1
+            if nfail[tag] > 25:
+                continue          # counted below; the first ones are reproduced and written out
+            if not replay_file and nfail[tag] <= 3:
                 # deterministic re-run of the single case against the real planner and TLC
                 res2 = F.run_cases(bins, dialect, [case], P["mode"])
-                v2, _, _, _ = F.validate(dialect, res2, tag=prop + "rerun")
-                if not any(x[3] == tag for x in v2):
+                v2, _, _, _ = F.validate(dialect, res2, tag=prop + "rerun", spec=P.get("spec"))
+                if not any(x[3] == tag for x in v2) and P["mode"] != "det":
                     raise C.Broken("failure %s of case %s not reproduced on re-run" % (tag, cid))
             mod = F.DIALECTS[dialect]["mod"]
             rep.known_or_violation("", "%s (%s) trace %s step %s family %s/%s\n--- device\n%s--- netspoc\n%s--- script\n%s" % (
                 tag, detail, tid, step, dialect, case["fam"], mod.render(case["dev"], True),
                 mod.render(case["tgt"], False), resid[cid].get("script", "")),
                 {"property": prop, "dialect": dialect, "tag": tag, "detail": detail, "case": case})
+    if nfail:
+        rep.cov["failing_inputs_by_tag"] = nfail
     if not replay_file and ncases and (ncases - nrej) * 2 < ncases:
         raise C.Broken("planner rejected %d of %d generated inputs - nothing to decide" % (nrej, ncases))
     rep.cov.update({
@@ -164,6 +178,12 @@ def run(prop, tier, replay_file=None):
         "checker_cmd": "tlc %s on %d traces recorded from drc built from /repo" % (
             ", ".join(sorted({F.DIALECTS[d]["trace"] for d in by})), ntraces),
     })
+    if P["mode"] == "det":
+        rep.cov["evaluations"] = sum(r.get("nruns", 0) for r in allres)
+        rep.cov["distinct_nontrivial"] = ntie
+        rep.cov["rule"] = ("inputs enumerated by TLC (families above); every input is planned 4 times, tie-bearing inputs "
+                           "(HasTie in the generator: several identical object-groups on the device) 12 times in separate "
+                           "processes; non-trivial = distinct tie-bearing input")
     rep.assumptions += [
         "device semantics = specs/dev/*.tla (guards sourced from the property text, code comments and expected outputs)",
         "harness renderer / cmdparse are trusted for the tool's own closed output dialect; an unknown command is exit 2",
